@@ -452,4 +452,103 @@ theorem extreme_zoom_snap_cex :
   cases e1
   simp at e3
 
+/-! ## `_check_linear`: which relative transforms take the linear path -/
+
+/-- **`_check_linear` rejects shear and rotation.**  If EITHER off-diagonal term of the relative
+pixel map `~S * D` exceeds `snap_affine`'s rotation tolerance (`tol`, 1e-8), `snap_affine` returns
+the map untouched and `_check_linear` answers `None` — `grid_intersect` then takes the general
+(footprint) path; a pure shear (exactly one non-zero off-diagonal term) is never treated as
+scale + translation.  (`sttol ≤ tol`: 1e-10 ≤ 1e-8 in the code.) -/
+theorem check_linear_rejects_shear (srcT dstT : Aff) (ttol stol tol sttol : Rat)
+    (hdet : srcT.det ≠ 0) (hst : sttol ≤ tol)
+    (hsh : C12.rabs (srcT.inv * dstT).b > tol ∨ C12.rabs (srcT.inv * dstT).d > tol) :
+    C12.checkLinear srcT dstT ttol stol tol sttol = .ok none := by
+  have hinv : srcT.inv? = .ok srcT.inv := by simp [Aff.inv?, hdet]
+  simp only [C12.checkLinear, hinv, bind, Except.bind, pure, Except.pure, C12.snapAffine, if_pos hsh]
+  rw [if_neg]
+  rintro ⟨h1, h2⟩
+  rcases hsh with h | h <;> linarith
+
+/-- conversely: whenever `_check_linear` accepts, BOTH off-diagonal terms of `~S * D` are within
+the tolerance and the returned map has none at all -/
+theorem check_linear_accepts_only_st (srcT dstT : Aff) (ttol stol tol sttol : Rat) (A : Aff)
+    (hdet : srcT.det ≠ 0) (hst : sttol ≤ tol)
+    (h : C12.checkLinear srcT dstT ttol stol tol sttol = .ok (some A)) :
+    C12.rabs (srcT.inv * dstT).b ≤ tol ∧ C12.rabs (srcT.inv * dstT).d ≤ tol ∧ A.b = 0 ∧ A.d = 0 := by
+  by_cases hsh : C12.rabs (srcT.inv * dstT).b > tol ∨ C12.rabs (srcT.inv * dstT).d > tol
+  · rw [check_linear_rejects_shear srcT dstT ttol stol tol sttol hdet hst hsh] at h
+    cases h
+  · have hb : C12.rabs (srcT.inv * dstT).b ≤ tol := by
+      by_contra hc; exact hsh (Or.inl (lt_of_not_ge hc))
+    have hd : C12.rabs (srcT.inv * dstT).d ≤ tol := by
+      by_contra hc; exact hsh (Or.inr (lt_of_not_ge hc))
+    have hinv : srcT.inv? = .ok srcT.inv := by simp [Aff.inv?, hdet]
+    simp only [C12.checkLinear, hinv, bind, Except.bind, pure, Except.pure, C12.snapAffine, if_neg hsh] at h
+    split at h
+    · simp only [Except.ok.injEq, Option.some.injEq] at h
+      subst h
+      exact ⟨hb, hd, rfl, rfl⟩
+    · cases h
+
+/-- a pure shear of a quarter pixel per row (`~S * D = ⟨1, 1/4, 0, 0, 1, 0⟩`, exactly one non-zero
+off-diagonal term) is rejected with the real tolerances -/
+example : C12.checkLinear Aff.id ⟨1, 1 / 4, 0, 0, 1, 0⟩ (1 / 1000) (1 / 1000000) (1 / 100000000)
+    (1 / 10000000000) = .ok none := by
+  decide +kernel
+
+/-! ## the identity corner -/
+
+theorem floor_add_half (x : Int) : ((x : Rat) + 1 / 2).floor = x := by
+  apply Int.le_antisymm
+  · have : ((x : Rat) + 1 / 2).floor < x + 1 := Rat.floor_lt_iff.2 (by push_cast; linarith)
+    omega
+  · exact Rat.le_floor_iff.2 (by linarith)
+
+/-- on the identity grid every destination pixel samples the source pixel with the same index -/
+theorem samplePix_identity (S : Aff) (hS : S.det ≠ 0) (H W : Int) (d : Int × Int)
+    (hd : 0 ≤ d.1 ∧ d.1 < H ∧ 0 ≤ d.2 ∧ d.2 < W) :
+    samplePix (S.inv * S) H W d = some d := by
+  obtain ⟨h1, h2, h3, h4⟩ := hd
+  have e1 : (0 : Rat) ≤ (d.1 : Rat) := by exact_mod_cast h1
+  have e2 : (d.1 : Rat) + 1 ≤ (H : Rat) := by exact_mod_cast (by omega : d.1 + 1 ≤ H)
+  have e3 : (0 : Rat) ≤ (d.2 : Rat) := by exact_mod_cast h3
+  have e4 : (d.2 : Rat) + 1 ≤ (W : Rat) := by exact_mod_cast (by omega : d.2 + 1 ≤ W)
+  unfold samplePix
+  rw [Aff.inv_mul_self S hS, Aff.apply_id]
+  simp only []
+  rw [if_pos ⟨by linarith, by linarith, by linarith, by linarith⟩, floor_add_half, floor_add_half]
+
+/-- **The identity corner is not a no-op.**  Destination grid == source grid (`D = S`, same shape),
+any chunkings, any complete dependency map: a pixel holding the source nodata comes out as
+`resolve_fill_value(dst_nodata, src_nodata, dtype)` — i.e. as the DESTINATION nodata when one
+is given — in the dask result (and, by `chunked_eq_whole_nn`, in the in-memory result): returning
+the source array unchanged would be wrong whenever `dst_nodata ≠ src_nodata`. -/
+theorem identity_grid_remarks_nodata (c : Cfg) (G : Gdal) (src buf : Img)
+    (hD : c.D = c.S) (hH : c.dstH = c.srcH) (hW : c.dstW = c.srcW)
+    (hV : c.variant = Variant.repaired)
+    (hbuf : WF buf c.dstH c.dstW)
+    (hsy : Chain 0 c.sy c.srcH) (hsx : Chain 0 c.sx c.srcW)
+    (hdy : Chain 0 c.dy c.dstH) (hdx : Chain 0 c.dx c.dstW)
+    (hS : c.S.det ≠ 0)
+    (hvalid : DepsValid c) (hcomplete : deps_complete c)
+    (hnd : c.dstNd = none → c.srcNd = none)
+    (hnd1 : NodataOk c.kind c.dstNd) (hnd2 : NodataOk c.kind c.srcNd)
+    (d : Int × Int) (hd : 0 ≤ d.1 ∧ d.1 < c.dstH ∧ 0 ≤ d.2 ∧ d.2 < c.dstW)
+    (v : Val) (hv : src d = some v) (hsn : c.srcNd = some v) :
+    daskResult c G src d = some (resolveFill c.dstNd c.srcNd c.kind) ∧
+    wholeResult c G src buf d = some (resolveFill c.dstNd c.srcNd c.kind) := by
+  have heq := chunked_eq_whole_nn c G src buf hV hbuf hsy hsx hdy hdx hS hvalid hcomplete hnd hnd1 hnd2 d hd
+  have hw : wholeResult c G src buf d = some (resolveFill c.dstNd c.srcNd c.kind) := by
+    unfold wholeResult rioReproject
+    rw [rioPlane_eq _ _ _ _ _ _ _ _ _ _ _ _ ((hbuf d).2 hd), hD,
+      samplePix_identity c.S hS c.srcH c.srcW d (by rw [← hH, ← hW]; exact hd), hV]
+    have hfill := chunk_fill_eq c.kind c.srcNd c.dstNd hnd1 hnd2
+    rw [chunkDstNodata_eq_rio c.kind c.srcNd c.dstNd hnd] at hfill
+    have henc : encNodata Variant.repaired c.kind c.srcNd = some (encVal c.kind v) := by
+      rw [hsn]
+      cases c.kind <;> simp [encNodata, encVal, Variant.repaired]
+    rw [henc] at hfill
+    simp only [outPix, encImg, hv, Option.map_some, henc, if_true, hfill]
+  exact ⟨heq.trans hw, hw⟩
+
 end OdcGeo.C13
